@@ -24,10 +24,10 @@ import (
 	"strings"
 
 	segproto "github.com/segmentio/encoding/proto"
+	gproto "google.golang.org/protobuf/proto"
 	"google.golang.org/protobuf/reflect/protodesc"
 	"google.golang.org/protobuf/reflect/protoreflect"
 	"google.golang.org/protobuf/types/descriptorpb"
-	gproto "google.golang.org/protobuf/proto"
 )
 
 // Kind names the Go kind of a field (or map key / value).
